@@ -588,6 +588,13 @@ func (a *Authenticator) performFullAuthentication(ctx context.Context, cache *Se
 	slog.Info(fmt.Sprintf("    Negotiated Auth: %s", negotiation.NegotiatedAuth), "destination", "cedar")
 	slog.Info(fmt.Sprintf("    Negotiated Crypto: %s", negotiation.NegotiatedCrypto), "destination", "cedar")
 
+	// The server's answer decides whether an authentication exchange runs at all
+	// (handleClientAuthentication); a client whose own policy requires
+	// authentication must not carry on when the server declines it.
+	if a.config.Authentication == SecurityRequired && negotiation.ServerConfig.Authentication != "YES" {
+		return nil, fmt.Errorf("security negotiation failed: client requires authentication but the server declined it")
+	}
+
 	// Handle authentication phase FIRST (without encryption). The
 	// inner error from handleClientAuthentication is typically an
 	// AuthMethodsExhaustedError whose own message already begins
@@ -598,9 +605,22 @@ func (a *Authenticator) performFullAuthentication(ctx context.Context, cache *Se
 		return nil, err
 	}
 
+	// Report what actually happened on the wire rather than what this side's own
+	// level table predicted: an exchange ran exactly when the server asked for one
+	// (see handleClientAuthentication).
+	negotiation.Authentication = negotiation.ServerConfig.Authentication == "YES"
+
 	// NOW set up stream encryption AFTER authentication is complete
 	if err := a.setupStreamEncryption(negotiation); err != nil {
 		return nil, fmt.Errorf("failed to setup stream encryption: %w", err)
+	}
+
+	// setupStreamEncryption carries on in the clear when the peer sent no usable key
+	// or cipher. That is fine for an optional policy, never for a required one; and
+	// the reported flag is always the stream's real state.
+	negotiation.Encryption = a.stream.IsEncrypted()
+	if (a.config.Encryption == SecurityRequired || a.config.Integrity == SecurityRequired) && !a.stream.IsEncrypted() {
+		return nil, fmt.Errorf("security negotiation failed: client requires encryption but no session key could be established with the server")
 	}
 
 	slog.Info(fmt.Sprintf("Stream encryption: %t", a.stream.IsEncrypted()), "destination", "cedar")
